@@ -1939,6 +1939,73 @@ def index_loops(fn, ref_loops):
   return fn
 
 
+class _ExpandLiteralComps(ast.NodeTransformer):
+  """{k: f(k) for k in ('a', 'b')} -> {'a': f('a'), 'b': f('b')} ; the same
+  for list comprehensions; getattr(x, 'a') -> x.a.  Only comprehensions over
+  a display of constants that the reference function does not have."""
+
+  MAX = 40
+
+  def __init__(self, ref_iters):
+    self.ref_iters = set(ref_iters)
+
+  def _elements(self, comp):
+    if len(comp.generators) != 1:
+      return None
+    g = comp.generators[0]
+    if g.ifs or g.is_async or not isinstance(g.target, ast.Name):
+      return None
+    if not isinstance(g.iter, (ast.Tuple, ast.List)) or not (
+        0 < len(g.iter.elts) <= self.MAX) or not all(
+            isinstance(e, ast.Constant) for e in g.iter.elts):
+      return None
+    if ast.unparse(g.iter) in self.ref_iters:
+      return None
+    return g.target.id, g.iter.elts
+
+  def _subst(self, node, name, const):
+    class S(ast.NodeTransformer):
+      def visit_Name(self_, n):
+        if n.id == name and isinstance(n.ctx, ast.Load):
+          return ast.copy_location(ast.Constant(value=const.value), n)
+        return n
+    return S().visit(copy.deepcopy(node))
+
+  def visit_DictComp(self, c):
+    self.generic_visit(c)
+    el = self._elements(c)
+    if el is None:
+      return c
+    name, elts = el
+    return ast.copy_location(ast.Dict(
+        keys=[self._getattr(self._subst(c.key, name, e)) for e in elts],
+        values=[self._getattr(self._subst(c.value, name, e)) for e in elts]),
+                             c)
+
+  def visit_ListComp(self, c):
+    self.generic_visit(c)
+    el = self._elements(c)
+    if el is None:
+      return c
+    name, elts = el
+    return ast.copy_location(ast.List(
+        elts=[self._getattr(self._subst(c.elt, name, e)) for e in elts],
+        ctx=ast.Load()), c)
+
+  def _getattr(self, node):
+    class G(ast.NodeTransformer):
+      def visit_Call(self_, n):
+        self_.generic_visit(n)
+        if isinstance(n.func, ast.Name) and n.func.id == 'getattr' and len(
+            n.args) == 2 and not n.keywords and isinstance(
+                n.args[1], ast.Constant) and isinstance(
+                    n.args[1].value, str) and n.args[1].value.isidentifier():
+          return ast.copy_location(ast.Attribute(
+              value=n.args[0], attr=n.args[1].value, ctx=ast.Load()), n)
+        return n
+    return G().visit(node)
+
+
 def flat_form(fn):
   """the statements of a function in normal form, one string per simple
   statement / compound header (docstrings dropped): the unit in which the
@@ -2012,6 +2079,11 @@ def normalise_module(modname, tree):
         ast.fix_missing_locations(fn)
       if inv[q].get('returns'):
         name_returns(fn, inv[q]['returns'])
+      if any(isinstance(x, (ast.DictComp, ast.ListComp)) and isinstance(
+          x.generators[0].iter, (ast.Tuple, ast.List)) for x in ast.walk(fn)):
+        _ExpandLiteralComps({it for it, _ in inv[q].get('comps') or []}
+                            ).visit(fn)
+        ast.fix_missing_locations(fn)
       expand_fill_comprehensions(fn, inv[q].get('defs'))
       index_loops(fn, inv[q].get('loops'))
       before = local_names(fn)
